@@ -144,7 +144,17 @@ def _empty(ctx, rule, label, up, pk, w, ci):
         writes = [e for e in p.calls() if isinstance(e.call.func, ast.Attribute) and canon(e.call.func.value) == 'fragments' and e.call.func.attr in ('append', 'extend', 'insert')]
         nonempty = [e for e in writes if not (e.call.args and isinstance(e.call.args[-1], ast.Constant) and e.call.args[-1].value == b'')]
         moved = [e for e in p.effects if e.kind == 'store_attr' and canon(e.obj) == 'fragments']
-        if not nonempty and not moved and p.ret() is not None and canon(p.ret()) == 'fragments':
+        if not nonempty and not moved and not writes and label == 'Em':
+            # Em is the position marker of the declaration language (tail = Em().aligned(4)): the
+            # cursor movement before it only shows in the output when something is stored there
+            mv = ctx.repo.cls('Move').methods.get('pack') if ctx.repo.has_cls('Move') else None
+            mv_writes = mv is not None and any(isinstance(n, ast.Call) and isinstance(n.func, ast.Attribute) and canon(n.func.value) == 'fragments'
+                                               and n.func.attr in ('append', 'extend', 'insert') for n in ast.walk(mv.node))
+            if mv_writes:
+                ctx.undecided(rule, pk, 'Em.pack: stores nothing', 'cannot see that Move.pack records the position it moved to', pk.node.lineno, clause='2')
+            else:
+                ctx.violation(rule, pk, 'Em.pack: stores nothing at the cursor', 'the marker does not record the position it stands at (an empty chunk at the cursor): the bytes skipped by an alignment / shift / at before a final Em are missing from pack() instead of holding the fill byte', pk.node.lineno, clause='2', witness=True)
+        elif not nonempty and not moved and p.ret() is not None and canon(p.ret()) == 'fragments':
             ctx.holds(rule, pk, '%s.pack: emits nothing%s' % (label, " (appends b'')" if writes else ''), 'consumes nothing <-> emits nothing', pk.node.lineno, clause='2')
         else:
             ctx.violation(rule, pk, '%s.pack: %s' % (label, [e.text() for e in nonempty + moved]), 'a placeholder field must emit nothing and leave the cursor alone', pk.node.lineno, clause='2')
@@ -165,9 +175,10 @@ def check_driver_symmetry(ctx):
             if sh is not None:
                 D.check_call_signature(ctx, 'R2-driver-symmetry', d, sh, layout, sh['template'].func, '%s loop block' % d.kind)
         D.check_try_span(ctx, 'R2-driver-symmetry', d)
-    from .c03 import check_partition, check_struct_block
+    from .c03 import check_partition, check_struct_block, check_struct_code_owners
     check_partition(ctx)
     check_struct_block(ctx)
+    check_struct_code_owners(ctx)
     ctx.floor('drivers analysed', ctx.units.get('drivers', 0), 4)
     return drivers
 
@@ -276,7 +287,7 @@ def check_overlap_surfaces(ctx):
             D.check_handlers(ctx, 'R7-overlap-surfaces', d)
     # the collision guards themselves (C11 clauses 4 and 7)
     from .c11 import check as c11_check
-    c11_check(ctx, parts=('guards', 'atomic'))
+    c11_check(ctx, parts=('index', 'guards', 'atomic'))
 
 
 def check(ctx):
